@@ -749,3 +749,337 @@ Example field_fits_example :
   kernel_stride_field 2 1 1 1 true = 5 /\ ifm_precision_field true 16 true 0 = 69 /\
   ofm_precision_field false 8 true false 2 = 33024 /\ kernel_size_field 2 3 = 4.
 Proof. repeat split; reflexivity. Qed.
+
+(* ------------------------------------------------------------------ stream_wellformed *)
+Lemma emit_all_gen_app d0 d1 a : forall s b,
+  emit_all_gen d0 d1 s (a ++ b) =
+  let '(s1, w1) := emit_all_gen d0 d1 s a in
+  let '(s2, w2) := emit_all_gen d0 d1 s1 b in (s2, w1 ++ w2).
+Proof.
+  induction a as [|c t IH]; intros s b.
+  - cbn. destruct (emit_all_gen d0 d1 s b). reflexivity.
+  - cbn [app emit_all_gen]. destruct (emit_gen d0 d1 s c) as [s1 w1]. rewrite IH.
+    destruct (emit_all_gen d0 d1 s1 t) as [s2 w2]. destruct (emit_all_gen d0 d1 s2 b) as [s3 w3].
+    rewrite app_assoc. reflexivity.
+Qed.
+
+Lemma opt_app_app c1 c2 o : opt_app c1 (opt_app c2 o) = opt_app (c1 ++ c2) o.
+Proof. destruct o; cbn; [rewrite app_assoc|]; reflexivity. Qed.
+
+(* the commands one call decodes to, whatever the emitter state: writes give 0 or 1 write commands,
+   waits and operations exactly their command *)
+Lemma step_shape d0 d1 s c s' ws :
+  call_ok c -> emit_gen d0 d1 s c = (s', ws) ->
+  exists cmds,
+    (forall rest, decode (ws ++ rest) = opt_app cmds (decode rest)) /\
+    match op_of c with
+    | Some (code, param) => cmds = [Cmd false code param 0]
+    | None => forallb cmd_is_write cmds = true
+    end.
+Proof.
+  intros Hok Hem. destruct c as [code p|code off p|code a|code ch cnt|code p]; cbn [call_ok] in Hok;
+    cbn [op_of]; cbn [emit_gen] in Hem.
+  - unfold emit_cmd0 in Hem. rewrite land16 in Hem. pose proof (mod16_range p).
+    rewrite word0 in Hem by lia. destruct (set_register _ _ _) as [rm [|]]; injection Hem as <- <-.
+    + exists [Cmd false code (p mod 65536) 0]. split; [intros; cbn [app]; apply decode_word0; lia|].
+      cbn. destruct (Z.leb_spec 256 code); [reflexivity|lia].
+    + exists []. split; [intros rest; cbn; destruct (decode rest); reflexivity|reflexivity].
+  - unfold emit_cmd1 in Hem. rewrite land16, land32 in Hem. pose proof (mod16_range p).
+    rewrite word1 in Hem by lia. destruct (set_register _ _ _) as [rm [|]]; injection Hem as <- <-.
+    + exists [Cmd true code (p mod 65536) (off mod 4294967296)].
+      split; [intros; cbn [app]; apply decode_word1; lia|reflexivity].
+    + exists []. split; [intros rest; cbn; destruct (decode rest); reflexivity|reflexivity].
+  - unfold emit_cmd1 in Hem. rewrite land16, land32, shiftr32 in Hem. pose proof (mod16_range (a / 4294967296)).
+    rewrite word1 in Hem by lia. destruct (set_register _ _ _) as [rm [|]]; injection Hem as <- <-.
+    + exists [Cmd true code ((a / 4294967296) mod 65536) (a mod 4294967296)].
+      split; [intros; cbn [app]; apply decode_word1; lia|reflexivity].
+    + exists []. split; [intros rest; cbn; destruct (decode rest); reflexivity|reflexivity].
+  - rewrite land16 in Hem. pose proof (mod16_range (16 * ch + cnt)). rewrite word0' in Hem by lia.
+    injection Hem as <- <-. exists [Cmd false code ((16 * ch + cnt) mod 65536) 0].
+    split; [intros; cbn [app]; apply decode_word0; lia|reflexivity].
+  - rewrite land16 in Hem. pose proof (mod16_range p). rewrite word0' in Hem by lia.
+    injection Hem as <- <-. exists [Cmd false code (p mod 65536) 0].
+    split; [intros; cbn [app]; apply decode_word0; lia|reflexivity].
+Qed.
+
+Lemma writes_shape d0 d1 cs : forall s,
+  Forall call_ok cs -> forallb is_write_call cs = true ->
+  exists cmds,
+    (forall rest, decode (snd (emit_all_gen d0 d1 s cs) ++ rest) = opt_app cmds (decode rest)) /\
+    forallb cmd_is_write cmds = true.
+Proof.
+  induction cs as [|c t IH]; intros s Hok Hw.
+  - exists []. split; [intros rest; cbn; destruct (decode rest); reflexivity|reflexivity].
+  - inversion Hok as [|? ? Hc Ht]; subst. cbn [forallb] in Hw. apply andb_prop in Hw as [Hwc Hwt].
+    cbn [emit_all_gen]. destruct (emit_gen d0 d1 s c) as [s1 w1] eqn:H1.
+    destruct (step_shape d0 d1 s c s1 w1 Hc H1) as (c1 & Hd1 & Hs1).
+    assert (Hop : op_of c = None) by (destruct c; cbn in Hwc; try discriminate; reflexivity).
+    rewrite Hop in Hs1.
+    destruct (IH s1 Ht Hwt) as (c2 & Hd2 & Hs2).
+    destruct (emit_all_gen d0 d1 s1 t) as [s2 w2]. cbn [snd] in *.
+    exists (c1 ++ c2). split.
+    + intros rest. rewrite <- app_assoc, Hd1, Hd2. apply opt_app_app.
+    + rewrite forallb_app, Hs1, Hs2. reflexivity.
+Qed.
+
+Lemma ops_shape d0 d1 cs : forall s,
+  Forall call_ok cs -> forallb (fun c => negb (is_write_call c)) cs = true ->
+  forall rest, decode (snd (emit_all_gen d0 d1 s cs) ++ rest) =
+               opt_app (flat_map (fun c => match op_of c with Some (code, param) => [Cmd false code param 0]
+                                                         | None => [] end) cs) (decode rest).
+Proof.
+  induction cs as [|c t IH]; intros s Hok Hw rest.
+  - cbn. destruct (decode rest); reflexivity.
+  - inversion Hok as [|? ? Hc Ht]; subst. cbn [forallb] in Hw. apply andb_prop in Hw as [Hwc Hwt].
+    cbn [emit_all_gen]. destruct (emit_gen d0 d1 s c) as [s1 w1] eqn:H1.
+    destruct (step_shape d0 d1 s c s1 w1 Hc H1) as (c1 & Hd1 & Hs1).
+    specialize (IH s1 Ht Hwt rest).
+    destruct (emit_all_gen d0 d1 s1 t) as [s2 w2]. cbn [snd] in *.
+    rewrite <- app_assoc, Hd1, IH, opt_app_app. cbn [flat_map].
+    destruct c; cbn in Hwc; try discriminate; cbn [op_of] in *; subst c1; reflexivity.
+Qed.
+
+Lemma frame_shape d0 d1 f s :
+  frame_ok f ->
+  exists ws,
+    (forall rest, decode (snd (emit_all_gen d0 d1 s (frame_calls f)) ++ rest) =
+                  opt_app (ws ++ wait_cmds f ++ [op_cmd f]) (decode rest)) /\
+    forallb cmd_is_write ws = true.
+Proof.
+  intros (Hregs & Hwr & Hop).
+  set (wr := f_regs f ++ match f_blockdep f with Some b => [Cmd0 cmd0_NPU_SET_BLOCKDEP b] | None => [] end).
+  set (ops := frame_waits f ++ [DoOp (f_opcode f) (f_opparam f)]).
+  assert (Hfc : frame_calls f = wr ++ ops).
+  { unfold frame_calls, wr, ops. rewrite <- !app_assoc. reflexivity. }
+  assert (Hwok : Forall call_ok wr).
+  { unfold wr. apply Forall_app. split; [exact Hregs|].
+    destruct (f_blockdep f); constructor; [cbn; vm_compute; intuition discriminate|constructor]. }
+  assert (Hww : forallb is_write_call wr = true).
+  { unfold wr. rewrite forallb_app, Hwr. destruct (f_blockdep f); reflexivity. }
+  assert (Hcode : 0 <= f_opcode f < 256).
+  { unfold op_code_ok, is_block_op in Hop.
+    repeat (apply orb_prop in Hop as [Hop|Hop]); apply Z.eqb_eq in Hop; rewrite Hop; vm_compute;
+      intuition discriminate. }
+  assert (Hook : Forall call_ok ops).
+  { unfold ops, frame_waits. repeat (apply Forall_app; split).
+    - destruct (0 <=? f_kwait f); constructor; [cbn; vm_compute; intuition discriminate|constructor].
+    - destruct (0 <=? f_dwait f); constructor; [cbn; vm_compute; intuition discriminate|constructor].
+    - constructor; [exact Hcode|constructor]. }
+  assert (Hoo : forallb (fun c => negb (is_write_call c)) ops = true).
+  { unfold ops, frame_waits. rewrite !forallb_app.
+    destruct (0 <=? f_kwait f), (0 <=? f_dwait f); reflexivity. }
+  rewrite Hfc, emit_all_gen_app.
+  destruct (emit_all_gen d0 d1 s wr) as [s1 w1] eqn:H1.
+  destruct (writes_shape d0 d1 wr s Hwok Hww) as (ws & Hd1 & Hs1). rewrite H1 in Hd1. cbn [snd] in Hd1.
+  pose proof (ops_shape d0 d1 ops s1 Hook Hoo) as Hd2.
+  destruct (emit_all_gen d0 d1 s1 ops) as [s2 w2]. cbn [snd] in *.
+  exists ws. split; [|exact Hs1].
+  intros rest. rewrite <- app_assoc, Hd1, Hd2, opt_app_app. f_equal. f_equal.
+  unfold ops, frame_waits, wait_cmds, op_cmd. rewrite !flat_map_app.
+  destruct (0 <=? f_kwait f), (0 <=? f_dwait f); cbn [flat_map op_of app]; rewrite ?Z.mul_0_r, ?Z.add_0_l;
+    reflexivity.
+Qed.
+
+Lemma frames_shape d0 d1 fs : forall s,
+  Forall frame_ok fs ->
+  exists cmds,
+    (forall rest, decode (snd (emit_all_gen d0 d1 s (flat_map frame_calls fs)) ++ rest) =
+                  opt_app cmds (decode rest)) /\
+    framed cmds fs.
+Proof.
+  induction fs as [|f t IH]; intros s Hok.
+  - exists []. split; [intros rest; cbn; destruct (decode rest); reflexivity|constructor].
+  - inversion Hok as [|? ? Hf Ht]; subst. cbn [flat_map]. rewrite emit_all_gen_app.
+    destruct (frame_shape d0 d1 f s Hf) as (ws & Hd1 & Hs1).
+    destruct (emit_all_gen d0 d1 s (frame_calls f)) as [s1 w1]. cbn [snd] in Hd1.
+    destruct (IH s1 Ht) as (c2 & Hd2 & Hfr).
+    destruct (emit_all_gen d0 d1 s1 (flat_map frame_calls t)) as [s2 w2]. cbn [snd] in *.
+    exists (ws ++ wait_cmds f ++ op_cmd f :: c2). split.
+    + intros rest. rewrite <- app_assoc, Hd1, Hd2, opt_app_app. f_equal.
+      rewrite <- !app_assoc. reflexivity.
+    + constructor; assumption.
+Qed.
+
+Definition stop_cmd : cmd := Cmd false cmd0_NPU_OP_STOP 65535 0.
+
+Lemma write_not_stop c : cmd_is_write c = true -> cmd_is_stop c = false.
+Proof.
+  unfold cmd_is_write, cmd_is_stop. destruct (c_pay c); [reflexivity|]. cbn.
+  intros H. destruct (Z.leb_spec 256 (c_code c)); [|discriminate].
+  destruct (Z.eqb_spec (c_code c) cmd0_NPU_OP_STOP) as [He|]; [|reflexivity].
+  rewrite He in *. vm_compute in H0. exfalso. apply H0. reflexivity.
+Qed.
+
+Lemma writes_no_stop ws : forallb cmd_is_write ws = true -> filter cmd_is_stop ws = [].
+Proof.
+  induction ws as [|c t IH]; [reflexivity|]. cbn [forallb filter]. intros H.
+  apply andb_prop in H as [Hc Ht]. rewrite (write_not_stop c Hc). apply IH. exact Ht.
+Qed.
+
+Lemma framed_no_stop cmds fs : Forall frame_ok fs -> framed cmds fs -> filter cmd_is_stop cmds = [].
+Proof.
+  intros Hok Hfr. induction Hfr as [|ws f rest fs Hws Hrest IH]; [reflexivity|].
+  inversion Hok as [|? ? (Hregs & Hwr & Hop) Ht]; subst.
+  rewrite !filter_app, (writes_no_stop ws Hws). cbn [filter app].
+  assert (Hw : filter cmd_is_stop (wait_cmds f) = []).
+  { unfold wait_cmds. destruct (0 <=? f_kwait f), (0 <=? f_dwait f); reflexivity. }
+  rewrite Hw. cbn [app].
+  assert (Ho : cmd_is_stop (op_cmd f) = false).
+  { unfold cmd_is_stop, op_cmd. cbn [c_pay c_code negb andb].
+    unfold op_code_ok, is_block_op in Hop.
+    repeat (apply orb_prop in Hop as [Hop|Hop]); apply Z.eqb_eq in Hop; rewrite Hop; reflexivity. }
+  rewrite Ho. apply IH. exact Ht.
+Qed.
+
+(* the stream of generate_command_stream: optional PARALLEL_MODE write, the frames, one STOP *)
+Lemma stream_wellformed_lemma par fs :
+  Forall frame_ok fs ->
+  exists pre body,
+    decode (emitted (stream_calls par fs)) = Some (pre ++ body ++ [stop_cmd]) /\
+    forallb cmd_is_write pre = true /\ framed body fs /\
+    filter cmd_is_stop (pre ++ body ++ [stop_cmd]) = [stop_cmd] /\
+    last (pre ++ body ++ [stop_cmd]) stop_cmd = stop_cmd /\
+    exists evs, run_stream (emitted (stream_calls par fs)) = Some (evs ++ [EStop 65535]) /\
+                Forall (fun e => match e with EStop _ => False | _ => True end) evs.
+Proof.
+  intros Hok.
+  set (pc := match par with Some n => [Cmd0 cmd0_NPU_SET_PARALLEL_MODE n] | None => [] end).
+  assert (Hpok : Forall call_ok pc).
+  { unfold pc. destruct par; constructor; [cbn; vm_compute; intuition discriminate|constructor]. }
+  assert (Hpw : forallb is_write_call pc = true) by (unfold pc; destruct par; reflexivity).
+  unfold emitted, emit_all, stream_calls. fold pc.
+  rewrite emit_all_gen_app.
+  destruct (writes_shape is_dma0 is_dma1 pc est_init Hpok Hpw) as (pre & Hd0 & Hs0).
+  destruct (emit_all_gen is_dma0 is_dma1 est_init pc) as [s0 w0] eqn:E0. cbn [snd] in Hd0.
+  rewrite emit_all_gen_app.
+  destruct (frames_shape is_dma0 is_dma1 fs s0 Hok) as (body & Hd1 & Hfr).
+  destruct (emit_all_gen is_dma0 is_dma1 s0 (flat_map frame_calls fs)) as [s1 w1] eqn:E1. cbn [snd] in Hd1.
+  assert (Hstop : Forall call_ok [DoOp cmd0_NPU_OP_STOP 65535]).
+  { constructor; [cbn; vm_compute; intuition discriminate|constructor]. }
+  pose proof (ops_shape is_dma0 is_dma1 [DoOp cmd0_NPU_OP_STOP 65535] s1 Hstop eq_refl []) as Hd2.
+  destruct (emit_all_gen is_dma0 is_dma1 s1 [DoOp cmd0_NPU_OP_STOP 65535]) as [s2 w2] eqn:E2. cbn [snd] in *.
+  rewrite app_nil_r in Hd2.
+  assert (Hdec : decode (w0 ++ w1 ++ w2) = Some (pre ++ body ++ [stop_cmd])).
+  { rewrite Hd0, Hd1, Hd2. reflexivity. }
+  exists pre, body. split; [exact Hdec|]. split; [exact Hs0|]. split; [exact Hfr|]. split; [|split].
+  - rewrite !filter_app, (writes_no_stop pre Hs0), (framed_no_stop body fs Hok Hfr). reflexivity.
+  - rewrite app_assoc. apply last_last.
+  - (* event level, through elision_transparent *)
+    assert (Hall : Forall call_ok (pc ++ flat_map frame_calls fs ++ [DoOp cmd0_NPU_OP_STOP 65535])).
+    { apply Forall_app. split; [exact Hpok|]. apply Forall_app. split; [|exact Hstop].
+      apply Forall_flat_map. apply Forall_forall. intros f Hin. rewrite Forall_forall in Hok.
+      destruct (Hok f Hin) as (Hregs & Hwr & Hop).
+      unfold frame_calls, frame_waits. repeat (apply Forall_app; split); try exact Hregs.
+      - destruct (f_blockdep f); constructor; [cbn; vm_compute; intuition discriminate|constructor].
+      - destruct (0 <=? f_kwait f); constructor; [cbn; vm_compute; intuition discriminate|constructor].
+      - destruct (0 <=? f_dwait f); constructor; [cbn; vm_compute; intuition discriminate|constructor].
+      - constructor; [|constructor]. unfold op_code_ok, is_block_op in Hop. cbn [call_ok].
+        repeat (apply orb_prop in Hop as [Hop|Hop]); apply Z.eqb_eq in Hop; rewrite Hop; vm_compute;
+          intuition discriminate. }
+    pose proof (elision_transparent_generic is_dma0 is_dma1 _ Hall) as Hrun.
+    rewrite emit_all_gen_app, E0, emit_all_gen_app, E1, E2 in Hrun. cbn [snd] in Hrun.
+    rewrite (app_assoc pc (flat_map frame_calls fs) [DoOp cmd0_NPU_OP_STOP 65535]), ref_events_app in Hrun.
+    exists (ref_events [] (pc ++ flat_map frame_calls fs)). split.
+    + exact Hrun.
+    + (* no stop among the events of writes, waits and operations *)
+      assert (Hgen : forall cs r, Forall (fun c => match op_of c with
+                                                   | Some (code, _) => code <> cmd0_NPU_OP_STOP /\ 0 <= code < 256
+                                                   | None => True end) cs ->
+                                  Forall (fun e => match e with EStop _ => False | _ => True end) (ref_events r cs)).
+      { induction cs as [|c t IH]; intros r Hc; [constructor|].
+        inversion Hc as [|? ? H1 H2]; subst. cbn [ref_events]. apply Forall_app. split; [|apply IH; exact H2].
+        unfold step_events. destruct (op_of c) as [[code pm]|]; [|constructor].
+        constructor; [|constructor]. unfold classify.
+        destruct (is_block_op code || (code =? cmd0_NPU_OP_DMA_START)); [exact I|].
+        destruct ((code =? cmd0_NPU_OP_KERNEL_WAIT) || (code =? cmd0_NPU_OP_DMA_WAIT)); [exact I|].
+        destruct (Z.eqb_spec code cmd0_NPU_OP_STOP); [destruct H1; contradiction|exact I]. }
+      apply Hgen. apply Forall_app. split.
+      * unfold pc. destruct par; constructor; [exact I|constructor].
+      * apply Forall_flat_map. apply Forall_forall. intros f Hin. rewrite Forall_forall in Hok.
+        destruct (Hok f Hin) as (Hregs & Hwr & Hop).
+        unfold frame_calls, frame_waits. repeat (apply Forall_app; split).
+        -- apply Forall_forall. intros c Hc. rewrite forallb_forall in Hwr. specialize (Hwr c Hc).
+           destruct c; cbn in Hwr; try discriminate; exact I.
+        -- destruct (f_blockdep f); constructor; [exact I|constructor].
+        -- destruct (0 <=? f_kwait f); constructor; [cbn; vm_compute; intuition discriminate|constructor].
+        -- destruct (0 <=? f_dwait f); constructor; [cbn; vm_compute; intuition discriminate|constructor].
+        -- constructor; [|constructor]. cbn [op_of]. unfold op_code_ok, is_block_op in Hop.
+           repeat (apply orb_prop in Hop as [Hop|Hop]); apply Z.eqb_eq in Hop; rewrite Hop; vm_compute;
+             intuition discriminate.
+Qed.
+
+Example stream_wellformed_example :
+  let f1 := {| f_regs := [Cmd0 cmd0_NPU_SET_DMA0_SRC_REGION 0; Cmd1Address cmd1_NPU_SET_DMA0_LEN 96];
+               f_blockdep := None; f_kwait := -1; f_dwait := -1;
+               f_opcode := cmd0_NPU_OP_DMA_START; f_opparam := 0 |} in
+  let f2 := {| f_regs := [Cmd0 cmd0_NPU_SET_IFM_REGION 1]; f_blockdep := Some 0; f_kwait := -1; f_dwait := 0;
+               f_opcode := cmd0_NPU_OP_CONV; f_opparam := 0 |} in
+  Forall frame_ok [f1; f2; f2] /\
+  decode (emitted (stream_calls (Some 1) [f1; f2; f2])) =
+    Some ([Cmd false cmd0_NPU_SET_PARALLEL_MODE 1 0] ++
+          ([Cmd false cmd0_NPU_SET_DMA0_SRC_REGION 0 0; Cmd true cmd1_NPU_SET_DMA0_LEN 0 96] ++ [] ++
+           [Cmd false cmd0_NPU_OP_DMA_START 0 0]) ++
+          ([Cmd false cmd0_NPU_SET_IFM_REGION 1 0; Cmd false cmd0_NPU_SET_BLOCKDEP 0 0] ++
+           [Cmd false cmd0_NPU_OP_DMA_WAIT 0 0] ++ [Cmd false cmd0_NPU_OP_CONV 0 0]) ++
+          ([] ++ [Cmd false cmd0_NPU_OP_DMA_WAIT 0 0] ++ [Cmd false cmd0_NPU_OP_CONV 0 0]) ++ [stop_cmd]).
+Proof.
+  cbv zeta. split.
+  - repeat constructor; cbn; vm_compute; intuition discriminate.
+  - vm_compute. reflexivity.
+Qed.
+
+(* ------------------------------------------------------------------ alignment_checks_complete *)
+Lemma mod_eqb_divide a n : 0 < n -> (a mod n =? 0) = true <-> (n | a).
+Proof. intros Hn. rewrite Z.eqb_eq. apply Z.mod_divide. lia. Qed.
+
+Lemma alignment_checks_complete_lemma :
+  (forall a n, 0 < n -> check_alignment_ok a n = true <-> (n | a)) /\
+  (forall a n, 0 < n -> check_size_ok a n = true <-> (n | a)) /\
+  (forall (b16 : bool) elem sc sy sx, 0 < elem ->
+     check_strides_ok b16 elem sc sy sx = true <->
+     (if b16 then (16 | sc) /\ (16 | sy) else (elem | sy) /\ (elem | sx))) /\
+  (forall (b16 : bool) elem q16 addrs, 0 < elem -> 0 < q16 ->
+     check_addresses_ok b16 elem q16 addrs = true <-> Forall (fun a => ((if b16 then q16 else elem) | a)) addrs) /\
+  (forall (u65 : bool) sr sa dr da len,
+     check_dma_ok u65 sr sa dr da len = true <->
+     (if u65 then (sr = MEM2MEM -> (16 | sa)) /\ (dr = MEM2MEM -> (16 | da) /\ (16 | len))
+      else (16 | sa) /\ (16 | da) /\ (16 | len))) /\
+  (forall addr len, check_weight_ok addr len = true <-> (16 | addr) /\ (16 | len)) /\
+  (forall len, check_bias_ok len = true <-> (16 | len)).
+Proof.
+  assert (A : forall a n, 0 < n -> check_alignment_ok a n = true <-> (n | a)) by (intros; apply mod_eqb_divide; assumption).
+  assert (S : forall a n, 0 < n -> check_size_ok a n = true <-> (n | a)) by (intros; apply mod_eqb_divide; assumption).
+  split; [exact A|]. split; [exact S|]. clear A S. split; [|split; [|split; [|split]]].
+  - intros b16 elem sc sy sx He. unfold check_strides_ok, check_size_ok.
+    destruct b16; rewrite andb_true_iff, !mod_eqb_divide by lia; reflexivity.
+  - intros b16 elem q16 addrs He Hq. unfold check_addresses_ok, check_alignment_ok. rewrite forallb_forall, Forall_forall.
+    split; intros H a Ha; specialize (H a Ha); apply mod_eqb_divide in H; try exact H; destruct b16; lia.
+  - intros u65 sr sa dr da len. unfold check_dma_ok, check_alignment_ok, check_size_ok. destruct u65.
+    + rewrite andb_true_iff.
+      destruct (Z.eqb_spec sr MEM2MEM) as [Hs|Hs], (Z.eqb_spec dr MEM2MEM) as [Hd|Hd];
+        rewrite ?andb_true_iff, ?mod_eqb_divide by lia; intuition.
+    + rewrite !andb_true_iff, !mod_eqb_divide by lia. tauto.
+  - intros addr len. unfold check_weight_ok, check_alignment_ok, check_size_ok.
+    rewrite andb_true_iff, !mod_eqb_divide by lia. reflexivity.
+  - intros len. unfold check_bias_ok, check_size_ok. apply mod_eqb_divide. lia.
+Qed.
+
+Example alignment_example :
+  check_dma_ok true 0 7 MEM2MEM 256 120 = false /\ check_dma_ok true 0 7 2 255 120 = true /\
+  check_strides_ok true 2 16 2 16 = false /\ check_strides_ok false 2 16 2 16 = true.
+Proof. repeat split; reflexivity. Qed.
+
+(* ------------------------------------------------------------------ the emitter never rejects *)
+(* `emit` is total: no call is refused.  So "a value that does not fit its field is rejected" is FALSE for the
+   emitter (and no generate_* function checks ranges either, see tools/checks/c06.py malformed stream):
+   OFM height 70000 is written as HEIGHT_M1 = 69999 & 0xFFFF = 4463 and the stream decodes to height 4464. *)
+Lemma out_of_range_rejected_refuted_lemma :
+  exists code p snap,
+    call_ok (Cmd0 code p) /\ ~ (0 <= p < 65536) /\
+    run_stream (emitted [Cmd0 code p; DoOp cmd0_NPU_OP_POOL 0; DoOp cmd0_NPU_OP_STOP 65535]) = Some [EOp cmd0_NPU_OP_POOL 0 snap; EStop 65535] /\
+    rget code snap <> p.
+Proof.
+  exists cmd0_NPU_SET_OFM_HEIGHT_M1, 69999, [(cmd0_NPU_SET_OFM_HEIGHT_M1, 4463)].
+  split; [vm_compute; intuition discriminate|]. split; [lia|]. split; [vm_compute; reflexivity|].
+  vm_compute. discriminate.
+Qed.
